@@ -68,7 +68,7 @@ CHECKS = {
     "C05": dict(
         engine="euf (translation validation)", level="translation_validation", design_ref="DESIGN.md section 4 / C05",
         technique="translation validation with uninterpreted functions (z3, EUF): output terms of the model before and after the real pass sequence - as object graph and after a serialize/deserialize round trip - proved equal for ALL inputs and ALL operator semantics; sat answers replayed with onnxruntime / the ONNX checker",
-        text=("Every built-in pass (20 configurations), every ordered pair of the rewriting passes and recommended triples (thorough: all ordered triples of 9 rewriting passes) run for real on a family of 22 checker-valid models built from real operators "
+        text=("Every built-in pass (20 configurations), every ordered pair of the rewriting passes and recommended triples (thorough: all ordered triples of the 16 rewriting passes) run for real on a family of 22 checker-valid models built from real operators "
               "(duplicate subexpressions differing in one attribute / optional input slot / output count, Identity chains touching inputs, initializers and outputs across scopes, duplicated initializers differing in dtype/shape/bytes, every Constant form, "
               "If/Loop bodies capturing outer values two scopes up, model-local functions with attribute parameters, defaults and nesting, outputs aliasing inputs, unsorted order, name clashes across scopes). After EVERY pass of a sequence the outputs are "
               "encoded as EUF terms and z3 proves position-wise equality with the original for all inputs and all interpretations of the operators; number/order of outputs and non-initializer inputs are compared; a pass that raises must leave an equivalent model. "
